@@ -8,6 +8,7 @@ TEXT_FEATS = dict(div=True, mod=True, window=True, setops_all=False, any_sub=Fal
                   ts=False, strftime=False, casts=True, like=True, ifnull=False, nulls_order=True,
                   unqualified=0.4, redundant_parens=0.15, cte_cols=False, join_no_on=0.12)
 
+CAST_FORMATS = ["'9,999'", "'fm'", "'999D99'", "'YYYY'"]
 CAST_TYPES = ["INT", "BIGINT", "SMALLINT", "DECIMAL(10, 2)", "VARCHAR(10)", "VARCHAR", "TEXT", "DOUBLE", "FLOAT",
               "DATE", "TIMESTAMP", "BOOLEAN", "CHAR(3)"]
 # used only where type-name idempotence is not the subject (serialisation, purity, structure): user-defined and nested types
@@ -24,6 +25,7 @@ EXOTIC_LITERALS = [
     r"E'a\nb'", r"E'tab\there'", r"e'it\'s'", "$$dollar 'quoted'$$", "$tag$x$tag$", r"r'raw\n'", r"R'C:\dir'", "'''triple'''",
     "'multi\nline'", "'tab\there'", r"'back\\slash'", "DATE '2020-01-02'", "TIMESTAMP '2020-01-02 03:04:05'",
     "INTERVAL '1' DAY", "INTERVAL '2' MONTH", "1.", ".5", "1e-3", "1_000", "0b101", "'é日本😀'", "''''", "N'multi\nline'",
+    "U&'d!0061t' UESCAPE '!'", "U&'x#2603' UESCAPE '#'",
 ]
 
 
@@ -37,7 +39,18 @@ def extra_expr(rng, g, scope, d=2):
         return rng.choice(LITERALS) if rng.random() < 0.5 else col()
     sub = lambda: extra_expr(rng, g, scope, d - 1)
     if r < 0.4:
-        return f"CAST({sub()} AS {rng.choice(_TYPES['list'])})"
+        c = rng.random()
+        if c < 0.7:
+            return f"CAST({sub()} AS {rng.choice(_TYPES['list'])})"
+        # the other forms the base grammar's CAST accepts (non-temporal targets: temporal ones become parse functions)
+        ty = rng.choice(["INT", "DECIMAL(10, 2)", "VARCHAR", "BIGINT", "DOUBLE"])
+        if c < 0.76:
+            return f"TRY_CAST({sub()} AS {ty})"
+        if c < 0.82:
+            return f"{col()}::{ty}"
+        dflt = f" DEFAULT {rng.choice(['0', 'NULL', '-1'])} ON CONVERSION ERROR" if c < 0.94 else ""
+        fmt = f" FORMAT {rng.choice(CAST_FORMATS)}" if c >= 0.88 else ""
+        return f"CAST({sub()} AS {ty}{dflt}{fmt})"
     if r < 0.5:
         return f"CASE {col()} WHEN {rng.choice(LITERALS)} THEN {sub()} ELSE {sub()} END"
     if r < 0.6:
